@@ -10,6 +10,14 @@ claimed = {
    text="buildTimeCodec, DateCodec.Read/Write and LongCodec.Read/Write are verified against the Avro logical-type definitions (date = signed int32 days from 1970-01-01, timestamp-millis/micros and the library's nanosecond long) for every stored integer and every schema value; the package time API is used through assumed algebraic contracts over an abstract instant (unix seconds, nanoseconds).",
    ref="DESIGN.md section 5/C19",
    note="Assumed: algebraic contracts of time.Date/Unix/UTC/Unix*/ (externals.spec), the arithmetic identity floor((86400 d + s)/86400) = d is not machine checked (64-bit division times out), umul_exact schema instances; plus the global trusted base."),
+ "C09": dict(cat="proof", tech="contract-based deductive verification: representation invariant + per-operation postconditions over a ghost output trace; VCs over go/ssa discharged by z3/cvc5",
+   text="The encoder's representation invariant (encInv) is preserved by Encode and Flush (generic bodies of Encoder[T]) and each operation's postcondition fixes exactly which io.Writer calls it makes: Flush writes one block iff records are pending and then resets count and buffer; Encode appends one record and flushes iff the buffer reached the block size; WriteBlock emits varint(count), varint(len(payload)), payload, sync in that order. Induction over call histories is the invariant.",
+   ref="DESIGN.md section 5/C09",
+   note="Assumed: io.Writer obeys its contract and does not touch encoder state; compressors only modify their private buffers (ghost predicate cowned); compress output decompresses to its input. NewEncoderFor (reflection, schema generation) is not under contract: the invariant is assumed to hold for a freshly built encoder."),
+ "C16": dict(cat="proof", tech="contract-based deductive verification: error-propagation postconditions over a ghost trace of io.Writer calls (each event carries the returned error); VCs over go/ssa discharged by z3/cvc5",
+   text="For WriteHeader, writeVarInt, WriteBlock, Flush and Encode: every io.Writer.Write call is a trace event carrying its bytes and its error; the postconditions state that all events but the last succeeded, that a failing last event makes the call return a non-nil error wrapping that error (fmt.Errorf %w, transitively), and that a nil result means all writes were made. The bytes passed to each write do not depend on earlier results, so the accepted bytes are a prefix of the fault-free output. No-panic obligations of these functions are included.",
+   ref="DESIGN.md section 5/C16",
+   note="Assumed: the io.Writer contract (n <= len(p), err == nil => n == len(p)); fmt.Errorf wraps its %w arguments; wraps is transitive."),
 }
 reasons = {}
 allp = [json.loads(l)["id"] for l in open("/verif/properties.jsonl")]
